@@ -12,6 +12,14 @@ def col_names(cols: List[Column]) -> str:
     return ', '.join(f'"{c.name}"' for c in cols)
 
 
+def _esc(text: str) -> str:
+    '''
+    The helpers below return a template with a `{c}` placeholder for the constraint name, which
+    is filled in with str.format. Braces in user supplied text have to be doubled to survive that.
+    '''
+    return text.replace('{', '{{').replace('}', '}}')
+
+
 def validate_for_sql(model: Reference):
     for col in chain(model.col1, model.col2):
         if col.table is None:
@@ -19,35 +27,35 @@ def validate_for_sql(model: Reference):
 
 
 def generate_inline_sql(model: Reference, source_col: List[Column], ref_col: List[Column]) -> str:
-    result = comment_to_sql(model.comment) if model.comment else ''
+    result = _esc(comment_to_sql(model.comment)) if model.comment else ''
     result += (
-        f'{{c}}FOREIGN KEY ({col_names(source_col)}) '  # type: ignore
-        f'REFERENCES {get_full_name_for_sql(ref_col[0].table)} ({col_names(ref_col)})'  # type: ignore
+        f'{{c}}FOREIGN KEY ({_esc(col_names(source_col))}) '  # type: ignore
+        f'REFERENCES {_esc(get_full_name_for_sql(ref_col[0].table))} ({_esc(col_names(ref_col))})'  # type: ignore
     )
     if model.on_update:
-        result += f' ON UPDATE {model.on_update.upper()}'
+        result += f' ON UPDATE {_esc(model.on_update.upper())}'
     if model.on_delete:
-        result += f' ON DELETE {model.on_delete.upper()}'
+        result += f' ON DELETE {_esc(model.on_delete.upper())}'
     return result
 
 
 def generate_not_inline_sql(model: Reference, source_col: List['Column'], ref_col: List['Column']):
-    result = comment_to_sql(model.comment) if model.comment else ''
+    result = _esc(comment_to_sql(model.comment)) if model.comment else ''
     result += (
-        f'ALTER TABLE {get_full_name_for_sql(source_col[0].table)}'  # type: ignore
-        f' ADD {{c}}FOREIGN KEY ({col_names(source_col)})'
-        f' REFERENCES {get_full_name_for_sql(ref_col[0].table)} ({col_names(ref_col)})' # type: ignore
+        f'ALTER TABLE {_esc(get_full_name_for_sql(source_col[0].table))}'  # type: ignore
+        f' ADD {{c}}FOREIGN KEY ({_esc(col_names(source_col))})'
+        f' REFERENCES {_esc(get_full_name_for_sql(ref_col[0].table))} ({_esc(col_names(ref_col))})' # type: ignore
     )
     if model.on_update:
-        result += f' ON UPDATE {model.on_update.upper()}'
+        result += f' ON UPDATE {_esc(model.on_update.upper())}'
     if model.on_delete:
-        result += f' ON DELETE {model.on_delete.upper()}'
+        result += f' ON DELETE {_esc(model.on_delete.upper())}'
     return result + ';'
 
 
 def generate_many_to_many_sql(model: Reference) -> str:
     join_table = model.join_table
-    table_sql = join_table.sql  # type: ignore
+    table_sql = _esc(join_table.sql)  # type: ignore
 
     n = len(model.col1)
     ref1_sql = generate_not_inline_sql(model, join_table.columns[:n], model.col1)  # type: ignore
